@@ -36,6 +36,11 @@
 (*   GroupKeepsPosterior (action property), PosteriorIsBasePosterior,      *)
 (*   PosteriorIgnoresHistory (action property), InnovationInRange,         *)
 (*   InnovationIsAngleResidual.                                            *)
+(* Update stands for the measurement update of EITHER filter family        *)
+(* (kalman/unscented_kalman_filter.py: update; particle/                   *)
+(* genetic_particle_filter.py: calculateResidualsFromObservations,         *)
+(* forecast, update): a stacked residual is the sequence of the            *)
+(* observations' own residual blocks in stack order (InnovOf per member).  *)
 (* Every "updated" state is one implementation test (Emit): the driver     *)
 (* feeds hist and then the stack to ONE real filter instance and compares  *)
 (* with a fresh instance fed the stack alone and with the canonical stack. *)
